@@ -33,7 +33,7 @@ pub fn meta(m: &mut PropMeta) {
 }
 
 pub fn families(_tier: &str) -> Vec<Box<dyn Family>> {
-    vec![Box::new(Product), Box::new(GeneratorFailure)]
+    vec![Box::new(Product), Box::new(GeneratorFailure), Box::new(DuplicateArgument)]
 }
 
 #[derive(Clone, Copy, Debug, PartialEq)]
@@ -159,6 +159,8 @@ struct Case {
     json: bool,
     /// (index of the generator that fails, how) — only in the family `generator-failure`
     failing: Option<(usize, GenFault)>,
+    /// a clean file is listed a second time under another spelling (a DuplicateFile warning, nothing else changes)
+    dup: bool,
 }
 
 const RADICES: [u64; 7] = [4, 2, 13, 3, 3, 2, 2];
@@ -174,6 +176,7 @@ fn case_of(idx: u64) -> Case {
         outdir: d[5] == 1,
         json: d[6] == 1,
         failing: None,
+        dup: false,
     }
 }
 
@@ -193,7 +196,16 @@ fn case_of_gf(idx: u64) -> Case {
         json: d[4] == 1,
         dry: d[5] == 1,
         outdir: idx % 2 == 0,
+        dup: false,
     }
+}
+
+const RADICES_DUP: [u64; 6] = [2, 2, 13, 3, 3, 2];
+
+/// family `duplicate-argument`: as `product`, with a clean file listed twice (sources, or once as reference)
+fn case_of_dup(idx: u64) -> Case {
+    let d = decode_index(idx, &RADICES_DUP);
+    Case { ngens: 1 + d[0] as usize, dry: d[1] == 1, class: CLASSES[d[2] as usize], pos: d[3] as usize, allow: ALLOW[d[4] as usize], outdir: false, json: d[5] == 1, failing: None, dup: true }
 }
 
 fn scenario(c: &Case) -> Scenario {
@@ -211,6 +223,10 @@ fn scenario(c: &Case) -> Scenario {
             tree.push((path.clone(), Node::File(clean_file(k).into_bytes())));
         }
         argv.push(path);
+    }
+    if c.dup {
+        // the clean file after the offending one, once more under another spelling
+        argv.push(format!("./f{}.slice", (c.pos + 2) % 3));
     }
     let mut gens = vec![];
     for i in 0..c.ngens {
@@ -246,6 +262,25 @@ fn scenario(c: &Case) -> Scenario {
 
 struct Product;
 struct GeneratorFailure;
+struct DuplicateArgument;
+
+impl Family for DuplicateArgument {
+    fn name(&self) -> String {
+        "duplicate-argument".into()
+    }
+    fn len(&self) -> u64 {
+        product(&RADICES_DUP)
+    }
+    fn hang_secs(&self) -> f64 {
+        60.0
+    }
+    fn describe(&self, idx: u64) -> Value {
+        describe_case(&case_of_dup(idx))
+    }
+    fn run(&self, idx: u64) -> CaseOut {
+        judge("duplicate-argument", &case_of_dup(idx))
+    }
+}
 
 impl Family for Product {
     fn name(&self) -> String {
